@@ -298,8 +298,8 @@ MUTATORS = ["mul_gen", "rmul_gen", "mul_P", "scale_P", "affine_P", "muladd", "mu
             "precompute_eager", "pickle_gen", "verify", "sign", "verify_other_key"]
 
 
-SECOND_QUICK = ["x_P", "eq_same", "add_PQ", "pickle_P", "pickle_gen", "mul_gen", "mul_P", "verify", "affine_P",
-                "pub_x", "muladd", "scale_P", "verify_other_key", "vk_to_string"]
+SECOND_QUICK = ["x_P", "eq_same", "add_PQ", "pickle_P", "pickle_gen", "mul_gen", "verify",
+                "muladd", "scale_P", "verify_other_key", "vk_to_string"]
 
 
 def units(tier, seed):
